@@ -251,7 +251,9 @@ def copyOne (a : Args) (srcTree : List Snap) (srcRel srcArg dstRel : Path) (s0 :
       -- when an earlier source of the same call created that parent and already set its time)
       let isNew := (findN t2 dstFinal).isNone
       let par := parentOf dstFinal
-      let t3 := if (isNew || !srcIsDir) && par ≠ [] then t2.map (fun n => if n.path = par then { n with mtime := if n.permFree then a.utime else none } else n) else t2
+      -- (a directory source over an existing NON-directory replaces it as well, when the call goes through at all)
+      let tgtNonDir := ((findN t2 dstFinal).map fun n => !n.st.isDir).getD false
+      let t3 := if (isNew || !srcIsDir || tgtNonDir) && par ≠ [] then t2.map (fun n => if n.path = par then { n with mtime := if n.permFree then a.utime else none } else n) else t2
       (rootEnt ++ sub).foldlM (copyEntry a (rootEnt ++ sub) srcRel dstFinal) { s0 with tree := t3, lazyDone := [] }
 
 /-- the whole call: ensure the destination's parents, then copy every source (one, or the wildcard matches in order) -/
